@@ -2349,6 +2349,11 @@ token * mmd_engine_parse_substring(mmd_engine * e, size_t byte_start, size_t byt
 	// token_describe(doc, NULL);
 
 	if (doc) {
+		// The root token spans everything that was parsed, even when trailing
+		// empty lines were stripped from the last block
+		doc->start = byte_start;
+		doc->len = byte_len;
+
 		// Parse blocks for pairs
 		mmd_assign_ambidextrous_tokens_in_block(e, doc, 0);
 
